@@ -301,6 +301,10 @@ func (ss *SpecSet) LoadContractFile(path string, pkgPath string) error {
 			cur.Trusted = true
 		case "inline":
 			cur.Inline = true
+		case "pure-function":
+			// in-repository function whose result is a deterministic, heap-independent function of its arguments
+			// (assumption, listed); callers and specs may use it as an uninterpreted function constrained by its ensures
+			cur.Pure = true
 		case "mode":
 			cur.BV = strings.TrimSpace(rest) == "bv"
 		case "may_panic":
@@ -404,8 +408,12 @@ func (ss *SpecSet) LoadContractFile(path string, pkgPath string) error {
 				}
 			}
 			ss.Sweeps = append(ss.Sweeps, sd)
-		case "callsite":
+		case "callsite", "package-callsite":
 			owner := cur
+			if word == "package-callsite" {
+				owner = nil
+				cur = nil
+			}
 			if !strings.Contains(rest, " requires ") {
 				return fmt.Errorf("%s: callsite callee(params) requires expr", src)
 			}
@@ -500,6 +508,7 @@ func parseClause(text, src string) (Clause, error) {
 
 // parseHeader parses "(<recv>) Name(params) (results)" (after the func keyword) using go/parser.
 func parseHeader(h string, pkgPath string) (*Contract, error) {
+	h = strings.ReplaceAll(h, "$", "_DOLLAR_")
 	src := "package p\nfunc " + h + "\n"
 	fset := token.NewFileSet()
 	f, err := parser.ParseFile(fset, "h.go", src, 0)
@@ -519,7 +528,8 @@ func parseHeader(h string, pkgPath string) (*Contract, error) {
 		}
 		key = recvString(r.Type) + "." + key
 	}
-	c.Key = key
+	c.Key = strings.ReplaceAll(key, "_DOLLAR_", "$")
+	c.Header = strings.ReplaceAll(c.Header, "_DOLLAR_", "$")
 	anon := 0
 	for _, p := range fd.Type.Params.List {
 		if len(p.Names) == 0 {
